@@ -146,18 +146,10 @@ func c20R1(c *Ctx) {
 			}
 			to, bo := conv(cs.Call.Args[0]), conv(cs.Call.Args[1])
 			src := func(o types.Object) string {
-				s := ""
 				if o == nil {
-					return s
+					return ""
 				}
-				for _, d := range varDefs(cm, o) {
-					if as, ok := d.node.(*ast.AssignStmt); ok {
-						for _, r := range as.Rhs {
-							s += exprString(r) + ";"
-						}
-					}
-				}
-				return s
+				return sliceText(cm, o, 3)
 			}
 			// base: read from the cluster ConfigMap "eni-config"; overlay: "" or read from the ConfigMap named by the node
 			okB := strings.Contains(src(bo), `"eni-config"`)
